@@ -1320,9 +1320,14 @@ def doc_literals(rng, type_name="Doc"):
 
 def doc_operators(rng, type_name="Doc", everything=False):
     """operators printed verbatim for whatever operand types the checker admitted"""
-    objs = [_obj("w1"), _obj("w2")]
+    objs = [_obj("w1"), _obj("w2"), _obj("w3"), _obj("w4")]
     w2 = ["obj", "w2"]
     pool = [
+        # the same calls with the operands the other way round (what the emitter does must not depend on which comes first)
+        ("outU", ["max", ["lit", "int", 3], ["prop", w2, "uintVal"]], "minmax-literal-uint"),
+        ("outU", ["min", ["lit", "int", 100], ["cast", "uint", ["prop", w2, "intVal"]]], "minmax-literal-uint-cast"),
+        ("outReal", ["min", ["lit", "double", 1.5], ["prop", w2, "realVal"]], "minmax-literal-double"),
+        ("out1", ["max", ["lit", "int", 2], ["prop", w2, "intVal"]], "minmax-literal-int"),
         ("outReal", ["bin", "double", "%", ["prop", w2, "realVal"], ["lit", "double", 2.0]], "double-rem"),
         ("outU", ["max", ["prop", w2, "uintVal"], ["lit", "int", 3]], "minmax-uint-literal"),
         ("outU", ["min", ["prop", w2, "uintVal"], ["lit", "int", 3]], "minmax-uint-literal"),
@@ -1340,11 +1345,10 @@ def doc_operators(rng, type_name="Doc", everything=False):
     chosen = rng.sample(pool, len(pool) if everything else rng.randint(2, 5))
     tags = []
     for tgt, e, tag in chosen:
-        owner = objs[0]
-        if any(b["target"] == tgt for b in owner["bindings"]):
-            owner = objs[1]
-            if not everything or any(b["target"] == tgt for b in owner["bindings"]):
-                continue
+        free = [o for o in objs if not any(b["target"] == tgt for b in o["bindings"])]
+        if not free:
+            continue
+        owner = free[0]
         owner["bindings"].append(_b(tgt, e))
         tags.append(tag)
     if everything or rng.chance(0.5):
